@@ -571,6 +571,19 @@ func (cfg SchemaCfg) genStruct(r *Rand, depth int, ctx genCtx, srepr string) *ST
 		n = 1 + r.Intn(3)
 		t.Delim = cfg.genDelim(r, ctx)
 	}
+	if srepr != "join" && depth >= 1 && r.Chance(1, 50) {
+		// a wide struct: around the 64-field mark (one machine word of field flags), scalar fields only
+		n = []int{63, 64, 65, 66, 70}[r.Intn(5)]
+		for i := 0; i < n; i++ {
+			nm := fmt.Sprintf("w%d", i)
+			f := SField{Name: nm, Rename: nm, T: &SType{K: []string{"int", "str", "bool"}[r.Intn(3)], Name: freshTypeName("T")}}
+			if srepr == "map" {
+				f.Opt = r.Chance(1, 4)
+			}
+			t.Fields = append(t.Fields, f)
+		}
+		return t
+	}
 	names := pickDistinct(r, fieldNames, n)
 	used := map[string]bool{}
 	loose := r.Chance(cfg.TupleLooseOptional, 100)
